@@ -27,8 +27,9 @@ ASSUMPTIONS = ['expected lines are computed on the re-positioned active text by 
 MIN_NONTRIVIAL = {'quick': 30, 'thorough': 30}
 FILENAME = 'answer.py'
 
-PATTERNS = {'default': (r'^(##### Part .+)$', '##### Part %d'), 'custom': (r'^(# --- .+ ---)$', '# --- step %d ---')}
-GOOD_LINES = ['{v} = {n}', 'print({v})', '{v} = {v} + 1', 'for k{i} in range(2):\n    print(k{i})', 'def f{i}(x):\n    return x + {n}', 'print(f{i}(2))' ,
+PATTERNS = {'default': (r'^(##### Part .+)$', '##### Part %d'), 'custom': (r'^(# --- .+ ---)$', '# --- step %d ---'),
+            'swallows-newline': (r'^(# === .*\n)', '# === part %d ===')}
+GOOD_LINES = ['# page \x0c break', '{v}_s = "sep\u2028arator"', '# nel \x85 vt \x0b fs \x1c', '{v} = {n}', 'print({v})', '{v} = {v} + 1', 'for k{i} in range(2):\n    print(k{i})', 'def f{i}(x):\n    return x + {n}', 'print(f{i}(2))' ,
               '', '# comment', 'if {v} > 1:\n    print("big")\nelse:\n    print("small")', '{v}_list = [{n}, {n}]\nprint(len({v}_list))']
 DIAGNOSTICS = {
     'syntax': ['bad = (1,', 'if True print(1)', '    indented = 1', 'x = = 2'],
@@ -38,14 +39,14 @@ DIAGNOSTICS = {
 }
 
 _chunk = st.fixed_dictionaries({
-    'lines': st.lists(st.sampled_from(range(len(GOOD_LINES))), max_size=4),
+    'lines': st.lists(st.sampled_from(list(range(len(GOOD_LINES))) + [0, 1, 2]), max_size=4),
     'diag': st.one_of(st.none(), st.tuples(st.sampled_from(sorted(DIAGNOSTICS)), st.integers(0, 4), st.integers(0, 4)).map(list), st.tuples(st.sampled_from(sorted(DIAGNOSTICS)), st.integers(0, 4), st.integers(0, 4)).map(list)),
     'trailing_blank': st.booleans(),
 })
 _setup = st.fixed_dictionaries({
     'op': st.just('setup'),
     'chunks': st.lists(_chunk, min_size=1, max_size=6).filter(lambda c: True) | st.lists(_chunk, min_size=3, max_size=6),
-    'pattern': st.sampled_from(['default', 'default', 'custom']),
+    'pattern': st.sampled_from(['default', 'default', 'custom', 'swallows-newline']),
     'independent': st.booleans(),
     'final_newline': st.booleans(),
     'leading_marker': st.booleans(),
